@@ -176,18 +176,22 @@ theorem pushDefaultK_cnt : ∀ (b : B) (k : Nat) (b' : B), pushDefaultK b k = .o
     · simp [fail] at h
   | .union p (.cons c m rest) types offs cur, k, b', h, hc => by
     simp only [pushDefaultK, ctx_ok] at h
-    split at h
-    · simp [fail] at h
-    · split at h
-      · simp [fail] at h
-      · obtain ⟨fs', h1, h2⟩ := (bind_ok _ _ _).1 h
-        split at h2
-        · simp [fail] at h2
-        · cases h2
-          simp only [Cnt] at hc ⊢
-          refine ⟨pushDefaultKAt_cnt _ _ k fs' h1 hc.1, ?_⟩
-          have := counters_step cur types.length k (firstReal (.cons c m rest)) hc.2
-          simpa only [List.length_append, List.length_replicate] using this
+    by_cases hk : k ≠ 0 ∧ firstReal (.cons c m rest) > 127
+    · rw [if_pos hk] at h; split at h <;> simp [fail] at h
+    · rw [if_neg hk] at h
+      by_cases hk1 : k ≠ 0 ∧ cur.getD (firstReal (.cons c m rest)) 0 + 1 > 2147483647
+      · rw [if_pos hk1] at h; simp [fail] at h
+      rw [if_neg hk1] at h
+      obtain ⟨fs', h1, h2⟩ := (bind_ok _ _ _).1 h
+      by_cases hk2 : k ≠ 0 ∧ cur.getD (firstReal (.cons c m rest)) 0 + (k : Int) > 2147483647
+      · rw [if_pos hk2] at h2; simp [fail] at h2
+      rw [if_neg hk2] at h2
+      simp only [pure, Except.pure] at h2
+      cases h2
+      simp only [Cnt] at hc ⊢
+      refine ⟨pushDefaultKAt_cnt _ _ k fs' h1 hc.1, ?_⟩
+      have := counters_step cur types.length k (firstReal (.cons c m rest)) hc.2
+      simpa only [List.length_append, List.length_replicate] using this
 theorem pushDefaultKAll_cnt : ∀ (fs : BL) (k : Nat) (fs' : BL), pushDefaultKAll fs k = .ok fs' → CntL fs → CntL fs'
   | .nil, k, fs', h, _ => by simp [pushDefaultKAll] at h; subst h; simp [CntL]
   | .cons b m rest, k, fs', h, hc => by
